@@ -10,6 +10,7 @@ structure DS where
   inflight : List Bool := []      -- hooks of the calls in flight, oldest first (true = the promise hook)
   weak : Bool := false            -- a weak reference to t was saved
   stale : Bool := false           -- a handle on t was released (the script kept the dead handle)
+  errHandles : Option Nat := none -- after a self-fulfilment: live handles of the promised client (they refer to the error client)
 
 def drain (s : St) : St :=
   let s := match step false s (.passDone false) with | some s' => s' | none => s
@@ -43,7 +44,16 @@ def apiOp0 (s : St) (op : String) : St × String :=
   | _ => (s, "bad-op")
 
 def apiOp (d : DS) (op : String) : DS × String :=
+  -- handles of a promise that was fulfilled with itself refer to an error client: a capability outside the model
+  match d.errHandles, op with
+  | some n, "addP" => if n = 0 then (d, "skip") else ({ d with errHandles := some (n + 1) }, "-")
+  | some n, "relP" => if n = 0 then (d, "skip") else ({ d with errHandles := some (n - 1) }, "-")
+  | some n, "callP" => if n = 0 then (d, "skip") else (d, "err")
+  | _, _ =>
   match op with
+  | "fulfillSelf" =>
+    if d.s.pResolved ∨ d.s.onP = 0 then (d, "skip")
+    else let s' := app d.s [.fulfillSelf]; ({ d with s := s', errHandles := some d.s.onP }, parkedAfter d.s s')
   | "beginT" => if d.s.onT = 0 then (d, "skip") else ({ d with s := app d.s [.startCall false], inflight := d.inflight ++ [false] }, "-")
   | "beginP" =>
     if d.s.onP = 0 ∨ d.s.pResolved then (d, "skip")
